@@ -45,7 +45,9 @@ def plan(tier):
 def gen_case(rng, params, idx):
     # ovld_lb: every change is made on a parent that is never called itself; calls and probes go to a linkback copy
     # ovld_chain: the copy under test is a *plain* copy of a linkback copy of the function that is modified
-    target = "mtm" if idx % 4 == 3 else "ovld_lb" if idx % 4 == 1 else "ovld_chain" if idx % 8 == 6 else "ovld"
+    # ovld_mixed: a plain copy under test whose parent also has a *linkback* copy (derived first)
+    target = ("mtm" if idx % 4 == 3 else "ovld_lb" if idx % 4 == 1 else "ovld_chain" if idx % 8 == 6
+              else "ovld_mixed" if idx % 8 == 2 else "ovld")
     hier = gen.gen_hierarchy(rng, rng.randint(2, 5), attrs=False, p_multi=0.5)
     pool = [s["name"] for s in hier] + ["object", "int", "str"]
     npos = rng.choice([1, 1, 2])
@@ -130,6 +132,10 @@ def _check_ovld(spec, res, env):
     if spec["target"] == "ovld_chain":
         C = C.copy()
         res.count("histories_ovld_chain")
+    if spec["target"] == "ovld_mixed":
+        linked_sibling = H.copy(linkback=True)     # noqa: F841  (kept alive: the parent has a linkback child as well)
+        C = H.copy()
+        res.count("histories_ovld_mixed_children")
     if C is not H:
         res.count("histories_ovld_linkback_child")
     if S is not None:
@@ -180,7 +186,7 @@ def _check_ovld(spec, res, env):
             try:
                 H.register(fn, priority=m.get("prio", 0))
             except Exception as e:  # noqa: BLE001
-                if "locked for modifications" in str(e) and spec["target"] == "ovld_chain":
+                if "locked for modifications" in str(e) and spec["target"] in ("ovld_chain", "ovld_mixed"):
                     res.count("modifications_refused_locked")     # a refusal is fine, silent drift is not
                     continue
                 if not isinstance(e, TypeError) or S is None or fn not in H.defns.values():
@@ -197,7 +203,7 @@ def _check_ovld(spec, res, env):
             try:
                 H.unregister(hfn[m["mid"]])
             except Exception as e:  # noqa: BLE001
-                if "locked for modifications" in str(e) and spec["target"] == "ovld_chain":
+                if "locked for modifications" in str(e) and spec["target"] in ("ovld_chain", "ovld_mixed"):
                     res.count("modifications_refused_locked")
                     continue
                 raise
